@@ -12,7 +12,7 @@ func init() {
 			"pppoe.Session.NextLCPIdentifier", "pppoe.Session.AddBytesIn", "pppoe.Session.AddBytesOut",
 			"pppoe.SessionManager.GetSession", "pppoe.SessionManager.RemoveSession",
 			"pppoe.Server.sendPPPPacket", "pppoe.Server.sendDiscoveryPacket", "pppoe.IPPool.Allocate", "pppoe.IPPool.Release",
-			"pppoe.PPPoEHeader.Serialize", "pppoe.zeroBytes",
+			"pppoe.PPPoEHeader.Serialize", "pppoe.zeroBytes", "pppoe.NewSession",
 		},
 		Trusted: []string{
 			"radius.Client.Authenticate: trusted contract (network exchange): modifies nothing visible to pppoe, verdict = err == nil && result != nil && result.Accepted",
